@@ -46,6 +46,8 @@ def main():
             sh('git -C /repo checkout -- .')
             # bring the generated model back in line with the restored tree
             sh('/venv/bin/python /verif/py2lean/translate.py /repo /verif/lean/Dhlldv/Gen; /venv/bin/python /verif/py2lean/effects.py /repo /verif/lean/Dhlldv/Gen')
+            # evidence written while a seed was applied is not evidence about /repo: restore the committed files
+            sh('git -C /verif checkout -- evidence')
     print(json.dumps(res, indent=1))
 
 main()
